@@ -145,7 +145,14 @@ impl PatchIndexHeader {
             u32::from_le_bytes([data[pos], data[pos + 1], data[pos + 2], data[pos + 3]]);
         pos += 4;
 
-        // Read block descriptors
+        // Read block descriptors (8 bytes each). Check the count against the
+        // remaining input before allocating for it.
+        if block_count as usize > data.len().saturating_sub(pos) / 8 {
+            return Err(PatchIndexError::TruncatedHeader {
+                header_size,
+                actual: data.len(),
+            });
+        }
         let mut blocks = Vec::with_capacity(block_count as usize);
         for _ in 0..block_count {
             if pos + 8 > data.len() {
